@@ -38,6 +38,7 @@
 (*   stack "follow" has no appendStore                                      *)
 (*   tryNode has no per-peer timeout; only Run's expiry cancels a stream    *)
 (*   resync mode puts any verified round into the raw store                 *)
+(*   the check aborts when Last() of a chained trimmed store is unreadable   *)
 (***************************************************************************)
 EXTENDS Naturals, Sequences, FiniteSets, TLC
 
@@ -143,6 +144,9 @@ StackOf(mode) == IF mode = "follow" THEN "follow" ELSE "full"
 
 \* CheckPastBeacons on a trimmed store: chained schemes read the previous
 \* signature from the previous round's entry.
+\* ... and store.Last() itself fails there when the entry before the head is missing: the check
+\* then returns an error instead of a report (named deviation)
+LastUnreadable(s, chained) == chained /\ StoreHead(s) >= 1 /\ s[StoreHead(s) - 1] = "none"
 Faulty(s, chained, r) == s[r] # "ok" \/ (chained /\ s[r - 1] # "ok")
 CheckOp(s, chained, upTo) == {r \in 1..Min2(upTo, StoreHead(s)) : Faulty(s, chained, r)}
 
@@ -404,10 +408,13 @@ FollowStart == \E pm \in AllPerms : FollowStartWith(pm)
 
 RepairCheck ==
   /\ cfg.mode = "repair" /\ drv.phase = "check"
-  /\ LET rep == CheckOp(store, cfg.chained, cfg.target) IN
-     /\ drv' = [drv EXCEPT !.reported = rep, !.todo = SortedSeq(rep),
-                           !.phase = IF rep = {} THEN "done" ELSE "correct"]
-     /\ obs' = H([kind |-> "check", reported |-> rep])
+  /\ IF LastUnreadable(store, cfg.chained)
+       THEN /\ drv' = [drv EXCEPT !.phase = "aborted"]
+            /\ obs' = H([kind |-> "checkaborted"])
+       ELSE LET rep == CheckOp(store, cfg.chained, cfg.target) IN
+            /\ drv' = [drv EXCEPT !.reported = rep, !.todo = SortedSeq(rep),
+                                  !.phase = IF rep = {} THEN "done" ELSE "correct"]
+            /\ obs' = H([kind |-> "check", reported |-> rep])
   /\ UNCHANGED <<cfg, store, alast, slast, called, tasks, queue, age, cur, ctxDone, notif, agg>>
 
 RepairStartWith(pm) ==
@@ -459,6 +466,9 @@ Inv_Chain == cfg.mode # "repair" => \A r \in Rounds : r <= StoreHead(store) => s
 \* repair never touches a round that the check did not report
 Inv_RepairUntouched ==
   (cfg.mode = "repair" /\ drv.phase # "check") => RepairUntouched(cfg.store0, store, drv.reported)
+
+\* the check always produces a report
+Inv_CheckNeverAborts == drv.phase # "aborted"
 
 Goal == IF cfg.mode = "repair" THEN 0 ELSE IF cfg.target = 0 THEN MaxR ELSE cfg.target
 \* an honest reachable peer that is ahead (a first transient failure is allowed)
